@@ -12,7 +12,14 @@ def _names(nodes, ctx_types, skip_nested=True):
     """[(name, node)] in source order for Name nodes with the given ctx, not entering nested defs."""
     out = []
 
-    def visit(n):
+    def visit(n, in_comp=False):
+        if isinstance(n, (ast.ListComp, ast.SetComp, ast.DictComp, ast.GeneratorExp)):
+            # a comprehension's targets are its own variables, not writes of the enclosing scope
+            bound = {t.id for g in n.generators for t in ast.walk(g.target) if isinstance(t, ast.Name)}
+            for ch in ast.walk(n):
+                if isinstance(ch, ast.Name) and isinstance(ch.ctx, ctx_types) and ch.id not in bound:
+                    out.append((ch.id, ch))
+            return
         if isinstance(n, ast.Name) and isinstance(n.ctx, ctx_types):
             out.append((n.id, n))
         if isinstance(n, ast.AugAssign) and isinstance(n.target, ast.Name):
@@ -141,8 +148,18 @@ def classify_method_extraction(src, start, end, new_src, new_name="extracted_q")
             continue
         comp = any(isinstance(n, ast.comprehension) and any(isinstance(t, ast.Name) and t.id == v for t in ast.walk(n.target))
                    for st in after_nodes for n in ast.walk(st))
+        in_try = False
+        for a in srcpos.ancestors(region[0]):
+            if isinstance(a, FUNC):
+                break
+            if isinstance(a, ast.Try):
+                alt = [st for h in a.handlers for st in h.body] + list(a.orelse) + list(a.finalbody)
+                if any(nm == v for nm, _ in _names(alt, (ast.Store,))):
+                    in_try = True
         if comp:
             ak = "comprehension-rebinds"
+        elif in_try:
+            ak = "try-handler-rebinds"
         elif ak in ("read", "aug"):
             ak = "direct"
         elif ak.startswith("nested-"):
